@@ -31,7 +31,7 @@ LEAN = {"module": "Pygom.Props.C14",
         + ["Pygom.C14.%s_diff2_is_second_derivative" % c for c in ("square", "normal", "poisson", "gamma", "negbinom")]
         + ["Pygom.C14.%s_diff_loss_weighted" % c for c in ("square", "normal", "poisson", "gamma", "negbinom")]
         + ["Pygom.C14.normal_loss_weighted", "Pygom.C14.raw_eq_unit_weight"]}
-BUDGET = {"quick": {"cases": 600, "search": 1500}, "thorough": {"cases": 12000, "search": 12000}}
+BUDGET = {"quick": {"cases": 2500, "search": 5000}, "thorough": {"cases": 150000, "search": 40000}}
 RULE = ("random loss objects: class in {Square, Normal, Poisson, Gamma, NegBinom}; n in 1..7 observations (integers, zero included, "
         "for the count losses; > 0 for Gamma); predictions > 0 given as vector (n,), single column (n,1) or single row (1,n); spread "
         "default / scalar / per-observation (n,) / (n,1); weights none / per-observation; apply_weighting True / False.  A case is "
